@@ -225,10 +225,9 @@ func (l *LockServer) Lock(ctx context.Context, name string, size *int32, lockTim
 
 // Unlock surprisingly, unlocks a lock...
 func (l *LockServer) Unlock(ctx context.Context, name string, key string) (bool, error) {
-	sessionId, ok := l.SessionId(ctx)
-	if !ok {
-		return false, ErrSessionDoesNotExist
-	}
+	// Unlock requests from the IPC server (the ldlm-lock admin tool) are not made in a client
+	// session. A lock can be unlocked from any session, so none is required.
+	sessionId, _ := l.SessionId(ctx)
 
 	ctxLog := log.FromContextOrDefault(ctx)
 	ctxLog.Info(
